@@ -12,8 +12,12 @@
    [Inv s] is 0 <= wi < len wl.  [thr (th s) = false]: the History object is an
    InMemoryHistory/FileHistory (everything is loaded by the first population
    step); [= true]: a ThreadedHistory, whose entries arrive from a loader
-   thread while the session runs (second half of this file).  The kind never
-   changes (C14_history_kind).  Operation classes:
+   thread while the session runs: at the end of ANY operation the Buffer's
+   consumer may prepend the entries that arrived ([new], strings of the
+   History's loaded list) and shift the index by as many.  The kind never
+   changes (C14_history_kind).  Since round 6 the browsing laws below hold for
+   EITHER kind (no hypothesis on [thr]); for the base kind they specialise to
+   [new = []].  Operation classes:
    is_nav  = history_backward/forward n, go_to_history, auto_up/auto_down n,
              end-of-history, cursor moves, validate, the landing of an
              incremental search (apply_search: index and cursor);
@@ -22,7 +26,7 @@
 From Coq Require Import ZArith List Bool.
 From PTK Require Import Lib.Sx Lib.Py Model.Document Model.BufferEdit Model.C14_HistoryNav
   Proofs.C14_Facts Proofs.C14_Nav Proofs.C14_Accept Proofs.C14_Mixed Proofs.C14_Sessions
-  Proofs.C14_Threaded Proofs.C14_Verdict.
+  Proofs.C14_Threaded Proofs.C14_Verdict Proofs.C14_AnyKind Proofs.C14_PrefixBF Proofs.C14_Whole.
 Import ListNotations.
 Open Scope Z_scope.
 
@@ -31,22 +35,25 @@ Open Scope Z_scope.
    cursor, search text and validation state move.  Lifted to every finite
    sequence: edits made to recalled entries are kept while browsing. *)
 Theorem C14_browse_pure : forall c ops s,
-  thr (th s) = false -> Forall is_nav ops ->
-  wl (steps c s ops) = wl s /\ store (steps c s ops) = store s /\
-  task (steps c s ops) = task s /\ tfin (steps c s ops) = tfin s /\ ehs (steps c s ops) = ehs s /\
-  th (steps c s ops) = th s.
-Proof. exact nav_steps_frame. Qed.
+  Forall is_nav ops ->
+  let s' := steps c s ops in
+  store s' = store s /\ ehs s' = ehs s /\ th s' = th s /\
+  exists new, wl s' = new ++ wl s /\ from_loaded s new /\
+    (thr (th s) = false -> new = [] /\ task s' = task s /\ tfin s' = tfin s).
+Proof. exact nav_steps_any. Qed.
 Print Assumptions C14_browse_pure.
 
 (* An edit changes the working lines only at the working index, and nothing
    of the History object. *)
 Theorem C14_edits_kept : forall c s o,
-  thr (th s) = false -> Inv s -> is_edit o ->
+  Inv s -> is_edit o ->
   let s' := step_state c s o in
-  store s' = store s /\ task s' = task s /\ tfin s' = tfin s /\ wi s' = wi s /\
-  length (wl s') = length (wl s) /\
-  (forall j, j <> Z.to_nat (wi s) -> nth_error (wl s') j = nth_error (wl s) j).
-Proof. exact edit_step_spec. Qed.
+  store s' = store s /\ th s' = th s /\
+  exists new, from_loaded s new /\
+    wi s' = wi s + len new /\ length (wl s') = (length new + length (wl s))%nat /\
+    (forall j, j <> Z.to_nat (wi s) -> nth_error (wl s') (length new + j) = nth_error (wl s) j) /\
+    (thr (th s) = false -> new = [] /\ task s' = task s /\ tfin s' = tfin s).
+Proof. exact edit_step_any. Qed.
 Print Assumptions C14_edits_kept.
 
 (* ONE statement over arbitrary interleavings of navigation, edits and
@@ -56,14 +63,16 @@ Print Assumptions C14_edits_kept.
    positions that were displayed while an edit ran.  Every other entry is the
    same before and after, no entry disappears, the stored history is
    unchanged: edits to recalled entries are kept while browsing and while the
-   history is still loading, and nothing else ever changes an entry. *)
+   history is still loading, and nothing else ever changes an entry.
+   [browse_opT] = navigation, edits, population steps, load(), steps of the
+   ThreadedHistory loader thread; either kind of History object. *)
 Theorem C14_edits_kept_mixed : forall c ops s,
-  thr (th s) = false -> Inv s -> Forall browse_op ops ->
+  Inv s -> Forall browse_opT ops ->
   (length (wl s) <= length (wl (steps c s ops)))%nat /\
   sto (store (steps c s ops)) = sto (store s) /\
   forall r, (r < length (wl s))%nat -> ~ In r (touched c s ops) ->
             rnth (wl (steps c s ops)) r = rnth (wl s) r.
-Proof. exact browse_steps. Qed.
+Proof. exact browse_steps_any. Qed.
 Print Assumptions C14_edits_kept_mixed.
 
 (* 0 <= working_index < len(working_lines) in every reachable state. *)
@@ -75,12 +84,43 @@ Print Assumptions C14_index_inv.
 (* Without prefix search, k entries back and k forward again (0 <= k not
    exceeding the entries available): same entry, same text, same lines. *)
 Theorem C14_back_forth : forall c s k,
-  thr (th s) = false -> Inv s -> ehs s = false -> 0 <= k <= wi s ->
+  Inv s -> ehs s = false -> 0 <= k <= wi s ->
   let s1 := step_state c s (OBack k) in
   let s2 := step_state c s1 (OFwd k) in
-  wi s1 = wi s - k /\ wi s2 = wi s /\ wl s2 = wl s /\ text s2 = text s.
-Proof. exact back_forth. Qed.
+  exists new1 new2,
+    wl s1 = new1 ++ wl s /\ wi s1 = wi s - k + len new1 /\
+    wl s2 = new2 ++ new1 ++ wl s /\ wi s2 = wi s + len new1 + len new2 /\
+    text s2 = text s /\ sto (store s2) = sto (store s) /\
+    (thr (th s) = false -> new1 = [] /\ new2 = []).
+Proof. exact back_forth_any. Qed.
 Print Assumptions C14_back_forth.
+
+(* WITH prefix search (round 6): [p] is the captured search text or, at the
+   first step, the text before the cursor; the displayed entry starts with it
+   (always true at the first step: C14_prefix_self); [nmatch p l] counts the
+   entries of l that start with p.  k steps back, k not exceeding the number
+   of EARLIER entries that start with p, land on an entry starting with p, and
+   k steps forward return to the same entry, text and lines. *)
+Theorem C14_back_forth_prefix : forall c s k,
+  Inv s -> ehs s = true ->
+  let p := search_prefix s in
+  startswith (text s) p = true ->
+  1 <= k <= nmatch p (firstn (Z.to_nat (wi s)) (wl s)) ->
+  let s1 := step_state c s (OBack k) in
+  let s2 := step_state c s1 (OFwd k) in
+  exists new1 new2,
+    wl s1 = new1 ++ wl s /\ wi s1 < wi s + len new1 /\ startswith (text s1) p = true /\
+    hst s1 = Some p /\
+    wl s2 = new2 ++ new1 ++ wl s /\ wi s2 = wi s + len new1 + len new2 /\
+    text s2 = text s /\ hst s2 = Some p /\ sto (store s2) = sto (store s) /\
+    (thr (th s) = false -> new1 = [] /\ new2 = []).
+Proof. exact back_forth_prefix. Qed.
+Print Assumptions C14_back_forth_prefix.
+
+Theorem C14_prefix_self : forall s,
+  hst s = None -> startswith (text s) (search_prefix s) = true.
+Proof. exact prefix_self. Qed.
+Print Assumptions C14_prefix_self.
 
 (* ... which the functions as they stood before the count fix did not satisfy
    for k = 0 (finding C14-F2, repaired in /repo: a count of 0 walked to the
@@ -99,21 +139,29 @@ Print Assumptions C14_selection_no_browse.
 
 (* With prefix search every entry reached by an up/down step (any count)
    starts with the prefix, which is the captured search text or, at the first
-   step, the text before the cursor. *)
+   step, the text before the cursor.  "Not moved" = the index moved exactly by
+   the number of entries that arrived (0 for the base kind: C14_browse_pure). *)
 Theorem C14_prefix : forall c s o,
-  thr (th s) = false -> ehs s = true -> is_hist_step o ->
-  wi (step_state c s o) = wi s \/
-  startswith (text (step_state c s o))
+  thr (th s) = false \/ Inv s -> ehs s = true -> is_hist_step o ->
+  let s' := step_state c s o in
+  wi s' - wi s = len (wl s') - len (wl s) \/
+  startswith (text s')
              (match hst s with Some q => q | None => text_before_cursor (sdoc s) end) = true.
-Proof. exact hist_step_prefix. Qed.
+Proof. exact hist_step_prefix_all. Qed.
 Print Assumptions C14_prefix.
 
 (* The captured prefix survives every navigation operation (it is only reset
    by an edit, by reset, or by switching the search off). *)
 Theorem C14_prefix_persists : forall c s o p,
-  thr (th s) = false -> is_nav o -> ehs s = true -> hst s = Some p -> hst (step_state c s o) = Some p.
-Proof. exact nav_hst_stable. Qed.
+  is_nav o -> ehs s = true -> hst s = Some p -> hst (step_state c s o) = Some p.
+Proof. exact nav_hst_stable_any. Qed.
 Print Assumptions C14_prefix_persists.
+
+(* ... and every navigation sequence *)
+Theorem C14_prefix_persists_seq : forall c ops s p,
+  Forall is_nav ops -> ehs s = true -> hst s = Some p -> hst (steps c s ops) = Some p.
+Proof. exact nav_steps_hst_any. Qed.
+Print Assumptions C14_prefix_persists_seq.
 
 (* Accept with a freshly computed rejecting verdict: nothing returned, lines,
    index and History untouched, cursor at the reported position clamped. *)
@@ -184,6 +232,40 @@ Theorem C14_accept_history : forall c s,
 Proof. exact accept_history. Qed.
 Print Assumptions C14_accept_history.
 
+(* The WHOLE stored history over a WHOLE session, any operations, either kind
+   of History object: it is the initial stored history followed by the log of
+   the session, where [added c s o] - what one operation adds - is empty unless
+   the operation is accept / append_to_history / reset(append_to_history=True);
+   then it is at most the one displayed, non-empty text, for accept only the
+   text that accept returns; browsing sequences have an empty log; for the
+   InMemoryHistory/FileHistory kind the line is added unless it equals the
+   newest stored entry. *)
+Theorem C14_history_is_initial_plus_accepted : forall c ops s,
+  sto (store (steps c s ops)) = sto (store s) ++ log c s ops.
+Proof. exact steps_sto. Qed.
+Print Assumptions C14_history_is_initial_plus_accepted.
+
+Theorem C14_log_entry : forall c s o,
+  added c s o = [] \/
+  (added c s o = [text s] /\ text s <> [] /\
+   match o with
+   | OAccept => snd (validate_and_handle c s) = Some (text s)
+   | OAppend | OReset _ _ true => True
+   | _ => False
+   end).
+Proof. exact added_shape. Qed.
+Print Assumptions C14_log_entry.
+
+Theorem C14_log_dedupe : forall s,
+  thr (th s) = false -> Coh (store s) ->
+  app_list s = if stored_skip (sto (store s)) (text s) then [] else [text s].
+Proof. exact app_list_base. Qed.
+Print Assumptions C14_log_dedupe.
+
+Theorem C14_browse_log_empty : forall c ops s, Forall browse_opT ops -> log c s ops = [].
+Proof. exact browse_log_nil. Qed.
+Print Assumptions C14_browse_log_empty.
+
 (* Before the fix (finding C14-F1, repaired in /repo) the newest stored entry
    was not seen while the history was not loaded. *)
 Theorem C14_append_dedupe_unloaded_pinned_refuted :
@@ -205,13 +287,26 @@ Proof. exact reset_clean. Qed.
 Print Assumptions C14_reset_clean.
 
 (* The same when the population steps are interleaved in any way with any
-   navigation operations. *)
+   navigation operations - for either kind of History object ([CohK] = [Coh]
+   of the store for the base kind, [CohT] for a ThreadedHistory, both hold in
+   every reachable state: C14_coherent, C14_threaded_coherent; [is_popT] =
+   navigation, population steps, steps of the loader thread). *)
 Theorem C14_reset_clean_interleaved : forall c s t cp ops,
-  thr (th s) = false -> Coh (store s) -> Forall (fun o => is_nav o \/ is_pop o) ops ->
+  CohK s -> Forall is_popT ops ->
   let s' := steps c (load_start (reset s t cp false)) ops in
-  tfin s' = true -> wl s' = sto (store s) ++ [t].
-Proof. exact reset_clean_interleaved. Qed.
+  sto (store s') = sto (store s) /\ (tfin s' = true -> wl s' = sto (store s) ++ [t]).
+Proof. exact reset_clean_interleaved_any. Qed.
 Print Assumptions C14_reset_clean_interleaved.
+
+(* ThreadedHistory: reset, load(), then the loader thread runs to its end
+   (more thread steps than stored entries): the same clean entry list. *)
+Theorem C14_reset_clean_threaded : forall c s t cp n,
+  CohT s -> (length (sto (store s)) < n)%nat ->
+  let s' := steps c (load_start (reset s t cp false)) (repeat OThread n) in
+  wl s' = sto (store s) ++ [t] /\ wi s' = len (sto (store s)) /\ text s' = t /\ cur s' = cp /\
+  sto (store s') = sto (store s) /\ hst s' = None /\ tfin s' = true.
+Proof. exact reset_clean_threaded. Qed.
+Print Assumptions C14_reset_clean_threaded.
 
 (* A new session on the same storage (new History object: nothing loaded yet)
    starts from the stored history followed by an empty line. *)
@@ -222,6 +317,15 @@ Theorem C14_new_session_clean : forall s,
   sto (store s') = sto (store s) /\ hst s' = None.
 Proof. exact new_session_clean. Qed.
 Print Assumptions C14_new_session_clean.
+
+(* ... the same for a ThreadedHistory once its loader thread has run to the end *)
+Theorem C14_new_session_clean_threaded : forall c s n,
+  thr (th s) = true -> (length (sto (store s)) < n)%nat ->
+  let s' := steps c (load_start (reopen s)) (repeat OThread n) in
+  wl s' = sto (store s) ++ [[]] /\ wi s' = len (sto (store s)) /\ text s' = [] /\
+  sto (store s') = sto (store s) /\ hst s' = None /\ tfin s' = true.
+Proof. exact new_session_clean_threaded. Qed.
+Print Assumptions C14_new_session_clean_threaded.
 
 (* Accept in one session, recall in the next: the entries of the next session
    are the old stored history, the accepted text, the new line; one step back
@@ -252,6 +356,18 @@ Theorem C14_population_prepends : forall s,
   exists new, wl (pop_step s) = new ++ wl s.
 Proof. exact pop_step_shift. Qed.
 Print Assumptions C14_population_prepends.
+
+(* ---------------------------------------------------------------------- *)
+(* Key handlers with a numeric argument (named commands previous-history,
+   next-history, beginning-of-history, end-of-history; vi k, j, <n>G, up, down;
+   emacs c-p, c-n; basic up, down): [handler_op h a] is the Buffer call the
+   handler makes for KeyPressEvent._arg = a (count = event.arg, which never
+   reaches a million).  Each is a navigation operation, so C14_browse_pure,
+   C14_edits_kept_mixed, C14_prefix_persists ... cover it for every argument. *)
+Theorem C14_key_handlers_are_navigation : forall h a o,
+  handler_op h a = Some o -> is_nav o.
+Proof. exact handler_op_nav. Qed.
+Print Assumptions C14_key_handlers_are_navigation.
 
 (* ---------------------------------------------------------------------- *)
 (* "Accepting succeeds only if the validator passes" *)
@@ -356,3 +472,18 @@ Example C14_hypotheses_satisfiable :
   tfin s = false /\ loaded (store s) = true.
 Proof. vm_compute. repeat split; try discriminate. left; reflexivity. Qed.
 Print Assumptions C14_hypotheses_satisfiable.
+
+(* ... of C14_back_forth_prefix: typed "a" below [a; ab; b]: two earlier
+   entries start with the prefix; and a ThreadedHistory state in which entries
+   are still arriving *)
+Example C14_hypotheses_satisfiable_prefix :
+  let c := mkcfg false false None in
+  let s := steps c (init [[97]; [97; 98]; [98]] true) [OLoadStart; OPopAll; OInsert [97]] in
+  let sT := steps c (init_k [[97]; [97; 98]; [98]] true true) [OLoadStart; OThread; OInsert [97]] in
+  (Inv s /\ ehs s = true /\ hst s = None /\ wi s = 3 /\
+   nmatch (search_prefix s) (firstn (Z.to_nat (wi s)) (wl s)) = 2) /\
+  (thr (th sT) = true /\ Inv sT /\ wi sT = 1 /\ tfin sT = false /\
+   nmatch (search_prefix sT) (firstn (Z.to_nat (wi sT)) (wl sT)) = 0 /\
+   wl (step_state c sT OThread) = [[97; 98]; [98]; [97]]).
+Proof. vm_compute. repeat split; try discriminate. Qed.
+Print Assumptions C14_hypotheses_satisfiable_prefix.
